@@ -2,11 +2,15 @@
 //! to soft-stop, alone or after handing its listening sockets over (ReturnListenSockets), while
 //! 1..6 client requests are in flight in generated phases (DESIGN §4 C10 b).
 //!
-//! One fresh worker per scenario (a soft stop ends it). Oracle: every request in flight at the stop
-//! completes byte-exactly, the stop command is answered with exactly one final OK and not before the
-//! last response reached its client, the worker thread ends, nothing new is served after the stop
-//! was acknowledged, handed-over listeners come out of the SCM socket bound to their addresses and
-//! still accept.
+//! One fresh worker per scenario (a soft stop ends it). Oracle: (1) every request in flight at the stop
+//! completes byte-exactly; (2) the stop command gets exactly one final OK, and not before the last
+//! backend began to write the end of its response; (3) the worker thread ends; (4) nothing new is
+//! served once the stop is acknowledged; handed-over listeners come out of the SCM socket with their
+//! kind, bound to their addresses, and still accept; (5) no worker panic.
+//!
+//! Not generated: requests whose head is only partly received at the stop (sozu may cut those), TLS /
+//! HTTP/2 listeners, TCP pipes in flight (a TCP session is closed at once by a soft stop, as documented
+//! on `SessionState::shutting_down`), a successor worker, a worker killed in the middle of the hand-over.
 
 use std::{
     collections::BTreeMap,
